@@ -973,6 +973,8 @@ def c19a(chk, rows):
                 r_ = ga.copy_root(l_)
                 if r_ == 3:
                     return "index"
+                if r_ == 2 and "usize" in ga.local_ty(l_):
+                    return "axis"
                 dd = ga.single_def(r_)
                 if dd and dd[0] == "call" and callee_name(dd[2]["callee"]).endswith("::dimensions"):
                     return "dims"
@@ -984,9 +986,10 @@ def c19a(chk, rows):
                         if any(e[0] == "index" for e in pl[1]):
                             idx = [e[1] for e in pl[1] if e[0] == "index"]
                             return "len" if idx and role({"k": "copy", "place": {"l": idx[0], "p": []}}, depth + 1) == "axis" else "?"
-                        if pl[0] == 2 and all(e[0] == "field" for e in pl[1]):
+                        r0 = ga.copy_root(pl[0])
+                        if r0 == 2 and all(e[0] == "field" for e in pl[1]):
                             return "axis"
-                        if pl[0] == 3 and not pl[1]:
+                        if r0 == 3 and not pl[1]:
                             return "index"
                         if not pl[1] and depth < 6:
                             return role({"k": "copy", "place": {"l": pl[0], "p": []}}, depth + 1)
@@ -1002,7 +1005,8 @@ def c19a(chk, rows):
                 oob = {"Le": t_true, "Gt": t_false}.get(op)
             if oob is not None:
                 blocked.add((sb, oob))
-        nones = [b for b, i, p, rv, s__ in ga.assigns() if p[0] == 0 and not p[1] and rv["k"] == "aggregate" and rv.get("variant") == "None"]
+        # (every place a None is built: the return place, or the result of a helper inlined in front of a `?`)
+        nones = [b for b, i, p, rv, s__ in ga.assigns() if not p[1] and rv["k"] == "aggregate" and rv.get("variant") == "None" and "Option" in (rv.get("adt") or "")]
         reach = an.reachable_with_edges_removed(ga, 0, set(), blocked)
         hit = [ga.loc(b) for b in nones if b in reach]
         chk.ob("C19.a", "get_axis/None-only-when-out-of-range", bool(nones) and not hit, ga.loc(),
